@@ -24,8 +24,6 @@ EVENTS = {"reset", "ir", "vouch", "an_done", "lookup", "gen_end"}
 def model(res, tier):
     n = 3 if tier == "thorough" else 2
     cfgs = ["MC_%s_%d.cfg" % (a, n) for a in ANALYSES]
-    if tier == "quick":
-        cfgs.append("MC_has_vtable_3.cfg")
     st = tr = 0
     for cfg in cfgs:
         r = C.tlc(os.path.join(CORE, "MC_Analyses.tla"), cfg=os.path.join("mc", cfg),
